@@ -124,6 +124,7 @@ HBconvert(int32 aid)
         /* set length to zero */
         if (Hsetlength(aid, 0) == FAIL)
             HGOTO_ERROR(DFE_INTERNAL, FAIL);
+        access_rec->appendable = TRUE; /* a new element can grow, as when it is written directly */
 
         /* get back new offset and length */
         if (HTPinquire(access_rec->ddid, &data_tag, &data_ref, &data_off, &data_len) == FAIL)
@@ -147,12 +148,15 @@ HBconvert(int32 aid)
     else
         info->buf = NULL;
 
-    /* Read in existing data into buffer */
+    /* Read in existing data into buffer (the caller's position in the element stays where it was) */
     if (data_len > 0) {
+        int32 posn = access_rec->posn;
+
         if (Hseek(aid, 0, DF_START) == FAIL)
             HGOTO_ERROR(DFE_SEEKERROR, FAIL);
         if (Hread(aid, data_len, info->buf) == FAIL)
             HGOTO_ERROR(DFE_READERROR, FAIL);
+        access_rec->posn = posn;
     } /* end if */
 
     /* get empty access record */
@@ -299,8 +303,8 @@ HBPread(accrec_t *access_rec, int32 length, void *data)
     /* adjust length if it falls off the end of the element */
     if ((length == 0) || (access_rec->posn + length > info->length))
         length = info->length - access_rec->posn;
-    else if (length < 0)
-        HGOTO_ERROR(DFE_RANGE, FAIL);
+    if (length < 0) /* positioned past the end (HBPseek has no upper bound): nothing to read */
+        length = 0;
 
     /* Copy data from buffer */
     memcpy(data, info->buf + access_rec->posn, (size_t)length);
@@ -343,6 +347,10 @@ HBPwrite(accrec_t *access_rec, int32 length, const void *data)
 
     /* Check if the data to write will overrun the buffer and realloc it if so */
     if (access_rec->posn + length > info->length) {
+        /* a plain element grows only through an appendable access, as when it is written directly */
+        if (info->buf_access_rec->special == 0 && !info->buf_access_rec->appendable)
+            HGOTO_ERROR(DFE_BADSEEK, FAIL);
+
         /* Calc. the new size of the object */
         new_len = access_rec->posn + length;
 
@@ -360,6 +368,10 @@ HBPwrite(accrec_t *access_rec, int32 length, const void *data)
                 HGOTO_ERROR(DFE_NOSPACE, FAIL);
             } /* end if */
         }
+
+        /* a gap skipped over by seeking reads as zeros */
+        if (access_rec->posn > info->length)
+            memset(info->buf + info->length, 0, (size_t)(access_rec->posn - info->length));
 
         /* update length */
         info->length = new_len;
@@ -508,7 +520,11 @@ HBPcloseAID(accrec_t *access_rec)
 
     if (--(info->attached) == 0) {
         /* Flush the data if it's been modified */
-        if (info->modified) {
+        if (info->modified && info->length > 0) {
+            /* the buffer holds the whole element: write it from the start (the access record underneath was
+               left behind the data HBconvert read in) */
+            if (Hseek(info->buf_aid, 0, DF_START) == FAIL)
+                HGOTO_ERROR(DFE_SEEKERROR, FAIL);
             if (Hwrite(info->buf_aid, info->length, info->buf) == FAIL)
                 HGOTO_ERROR(DFE_WRITEERROR, FAIL);
         } /* end if */
